@@ -3,6 +3,7 @@ CONSTANTS
   Shapes = {1}
   MaxDepth = 2
   Small = FALSE
+  Focus = FALSE
   Bug = "gen_hi_inclusive"
 INVARIANTS InvWithinAll InvDifference InvRange InvFoldGeneration InvFoldDescendants InvHeadsRoots InvNotAncestors
 CHECK_DEADLOCK FALSE
